@@ -251,14 +251,14 @@ prop("C03", engine="e1", program="c03", rule=(
     "definition records itself and calls next; the chains D > next(D) > ... "
     "and the final error of every tuple are compared with the model, before "
     "and after a second update"),
-    quick=dict(also=[dict(engine="e2", workers=3, cases=600)], cases=10000, size=60), thorough=dict(also=[dict(engine="e2", workers=3, cases=20000)], cases=300000, size=100))
+    quick=dict(also=[dict(engine="e2", workers=3, cases=1500)], cases=20000, size=60), thorough=dict(also=[dict(engine="e2", workers=3, cases=20000)], cases=300000, size=100))
 prop("C04", engine="e1", rule=(
     "lattice-biased random registries, canonical and arbitrary legal "
     "presentations; slot injectivity per class from installed slots, "
     "bounds-checked re-implementation of the table walk, real resolve under "
     "ASan; non-trivial = a class with >= 2 direct bases exists and >= 2 "
     "(method, parameter) pairs share a class"),
-    quick=dict(cases=12000, size=60), thorough=dict(fuzz=dict(engine="e1f", workers=4, runs=300000), cases=200000, size=100))
+    quick=dict(cases=30000, size=60), thorough=dict(fuzz=dict(engine="e1f", workers=4, runs=300000), cases=200000, size=100))
 prop("C02", engine="e1", rule=(
     "random registries biased to gaps and ambiguities (duplicated "
     "definitions included), all signature shapes, error facets vectored / "
@@ -269,7 +269,7 @@ prop("C02", engine="e1", rule=(
     "for one case in eight the handler returns in a forked child which must "
     "die by abort; non-trivial = an erroring method with a non-virtual "
     "parameter or arity >= 2"),
-    quick=dict(also=[dict(engine="e2", workers=4, cases=600)], cases=4000, size=60), thorough=dict(also=[dict(engine="e2", workers=4, cases=20000)], cases=100000, size=100))
+    quick=dict(also=[dict(engine="e2", workers=4, cases=1500)], cases=12000, size=60), thorough=dict(also=[dict(engine="e2", workers=4, cases=20000)], cases=100000, size=100))
 prop("C05", engine="e4", rule=(
     "histories of 1..6 successive publish_vptrs calls (what update does) on "
     "growing and shrinking sets of 0..64 ids (thorough: 0..400) from "
@@ -296,7 +296,7 @@ prop("C06", engine="e1", rule=(
     "metamorphic oracle: dispatch of every tuple and next of every "
     "definition equal across orders; non-trivial = a non-identity "
     "permutation and a tuple with >= 3 applicable definitions"),
-    quick=dict(cases=10000, size=60), thorough=dict(cases=150000, size=100))
+    quick=dict(cases=30000, size=60), thorough=dict(cases=150000, size=100))
 prop("C07", engine="e1", program="c07", rule=(
     "stateful: a universe registry and 3..40 operations load/unload class, "
     "method, definition (real catalog push_back/remove of the registration "
@@ -311,7 +311,7 @@ prop("C07", engine="e1", program="c07", rule=(
     "script of dlopen / dlclose / update steps; after each update every "
     "tuple of the classes then known is called and the transcript compared "
     "with a brute-force model of the modules loaded at that point"),
-    quick=dict(cases=2500, size=60), thorough=dict(cases=60000, size=100))
+    quick=dict(cases=6000, size=60), thorough=dict(cases=60000, size=100))
 prop("C08", engine="e1", rule=(
     "one random graph registered canonically and through a random legal "
     "presentation (1..3 records per class, any superset of the direct bases "
@@ -320,7 +320,7 @@ prop("C08", engine="e1", rule=(
     "equal to the model, acceptance relation = derived classes, slot "
     "injectivity and bounds, report; non-trivial = the presentation omits "
     "an indirect base of a class with >= 2 direct bases"),
-    quick=dict(cases=10000, size=60), thorough=dict(cases=150000, size=100))
+    quick=dict(cases=30000, size=60), thorough=dict(cases=150000, size=100))
 prop("C09", engine="e2", rule=(
     "typed universe (13 real classes: chains, second base at non-zero "
     "offset, virtual diamond) under 5 policies (stock debug and release "
@@ -339,7 +339,7 @@ prop("C09", engine="e2", rule=(
     "differs from the pointee's, or a pre-update pointer used after update"),
     technique="property-based testing (rapidcheck) on real C++ types with "
               "a reference-model oracle and route metamorphism",
-    quick=dict(cases=1500, size=60), thorough=dict(cases=40000, size=100))
+    quick=dict(cases=4000, size=60), thorough=dict(cases=40000, size=100))
 prop("C10", engine="e1", program="c10", rule=(
     "one abstract registry instantiated under 3..4 RTTI flavours (identity "
     "custom ids with checked hash / map / no hash, many-to-one projection "
@@ -357,7 +357,7 @@ prop("C10", engine="e1", program="c10", rule=(
     "small-integer ids without type hash - compiled with ASan+UBSan; every "
     "tuple must give the model's result under each flavour, before and "
     "after a second update"),
-    quick=dict(cases=1500, size=60), thorough=dict(cases=40000, size=100))
+    quick=dict(cases=3000, size=60), thorough=dict(cases=40000, size=100))
 prop("C11", engine="e2", program="c11", rule=(
     "two generators. (1) generated programs: a case is a combination of "
     "virtual parameter kind (T&, const T&, T&&, T*, const T*, shared_ptr, "
@@ -410,7 +410,7 @@ prop("C12", engine="e1", program="c13", rule=(
     "arity >= 3 (first arity where grouped and interleaved layouts differ); "
     "plus generated two-stage programs (see C13) compiled with the generated "
     "offsets under checked and unchecked policies"),
-    quick=dict(cases=4000, size=60), thorough=dict(cases=100000, size=100))
+    quick=dict(cases=8000, size=60), thorough=dict(cases=100000, size=100))
 prop("C13", engine="e1", program="c13", rule=(
     "random lattice-biased registries with type_info ids, gaps and "
     "ambiguities; the text written by generator::encode_dispatch_data is "
@@ -441,7 +441,7 @@ prop("C14", engine="e1", rule=(
     "class_declaration (pack and type-list forms) / method / definition "
     "objects of one policy constructed and destroyed at random while the "
     "catalogs of a second policy and of the default policy must not change"),
-    quick=dict(cases=1200, size=60,
+    quick=dict(cases=3000, size=60,
                also=[dict(engine="e5", variants=["catalogs"], workers=2,
                           cases=3000)]),
     thorough=dict(cases=30000, size=100,
@@ -456,7 +456,7 @@ prop("C15", engine="e1", rule=(
     "exactly once, no body runs); checked configurations only; non-trivial "
     "= left out as method/definition parameter, or dynamic at position >= 2 "
     "or through a virtual_ptr"),
-    quick=dict(also=[dict(engine="e2", workers=4, cases=800)], cases=4000, size=60), thorough=dict(also=[dict(engine="e2", workers=4, cases=20000)], cases=100000, size=100))
+    quick=dict(also=[dict(engine="e2", workers=4, cases=1500)], cases=10000, size=60), thorough=dict(also=[dict(engine="e2", workers=4, cases=20000)], cases=100000, size=100))
 prop("C18", engine="e5", variants=["list", "catalogs"], rule=(
     "(a) static_list<Node> directly: pool of 1..6 zero-initialised nodes, "
     "sequences of push_back (node not in list), remove (node in list: "
@@ -470,7 +470,7 @@ prop("C18", engine="e5", variants=["list", "catalogs"], rule=(
     "of a middle or last element followed by a push"),
     technique="model-based stateful property testing (rapidcheck) plus "
               "bounded exhaustive enumeration of operation sequences",
-    quick=dict(cases=8000, size=60,
+    quick=dict(cases=40000, size=60,
                extra=[["--exhaustive", "8", "--nodes", "3"]]),
     thorough=dict(cases=200000, size=100,
                   extra=[["--exhaustive", "9", "--nodes", "3"],
@@ -518,7 +518,7 @@ prop("C17", engine="e1", rule=(
     "with the model, cells also with the number of cells built; "
     "non-trivial = at least one abstract class and a NONE or AMBIGUOUS "
     "tuple"),
-    quick=dict(cases=8000, size=60), thorough=dict(cases=300000, size=100))
+    quick=dict(cases=30000, size=60), thorough=dict(cases=300000, size=100))
 
 
 # --------------------------------------------------------------------------
